@@ -11,19 +11,28 @@
     files, with options produced by the real command-line parser: level of the target lint = Allowed iff silenced; all
     other diagnostics (code, message, location, order, level), the error count and the AST (apart from the allow
     attribute itself) are identical in both runs.
+    MC_ManyLints: one program with seven lints of three kinds on four elements (two lints of different kinds share an
+    element, and so the scope they record, three times) x up to two (thorough: three) suppressions at nine places
+    (command line, file, the elements, a sibling, another file) x six argument sets: TLC checks RefEqOp and
+    NonInterference; compiled with and without the suppressions: every lint's level is what the statement says,
+    independently of the other lints; the diagnostics and the AST are otherwise identical.
 """
 RULE = ("cases = site x placement x arguments enumerated by TLC; distinct = distinct rendered programs + command lines; "
         "non-trivial = a suppression is present")
-ASSUMPTIONS = ["one template program per lint site", "the generator request and the binary's exit status are covered by "
+ASSUMPTIONS = ["one template program per lint site, one program with many lints", "the generator request and the binary's exit status are covered by "
                "C07 / C14 families run with -A lists"]
 
 
 def signature(f):
     d = f.get("detail") or {}
     c = f.get("case") or {}
+    if c.get("many"):
+        return "lints many %s %s" % (d.get("kind"), d.get("what", ""))
     return "lints %s %s site=%s place=%s" % (d.get("kind"), d.get("what", ""), c.get("site"), c.get("place"))
 
 
 def run(ctx):
     ctx.tlc("MC_Lints", "MC_Lints", replay="lints", coverage=False)
+    # a program with seven lints of three kinds on four elements x up to two (thorough: three) suppressions at nine places
+    ctx.tlc("MC_ManyLints", "MC_ManyLints" if ctx.quick else "MC_ManyLints_thorough", replay="lints", coverage=False)
     ctx.tlc("MC_Lints", "MC_Lints_asbuilt", must_pass=False, label="MC_Lints_asbuilt(documents the pinned deviations)", coverage=False)
